@@ -259,7 +259,7 @@ func runC20(s *Sim) {
 		ai := wl.Draw(nAct)
 		a := s.Actors[ai]
 		var name string
-		switch weighted(wl, []int{7, 5, 2, 2, 2, 1}) {
+		switch weighted(wl, []int{7, 5, 2, 2, 2, 1, 1}) {
 		case 0: // node-point write, 1..2 identities, unique values, globally distinct timestamps
 			n := nodes[wl.Draw(len(nodes))]
 			cnt := 1 + wl.Draw(2)
@@ -350,6 +350,13 @@ func runC20(s *Sim) {
 					s.Fail("C20", "verify-error", "admin.storeVerify answered %v while writes were going on", err)
 				}
 			})
+		case 6: // maintenance request (its own subscription, so it overlaps verification, reads and writes)
+			name = "storeMaint"
+			a.Add(name, func() {
+				if err := client.AdminStoreMaint(a.Nc); err != nil && !errors.Is(err, nats.ErrTimeout) {
+					s.Fail("C20", "verify-error", "admin.storeMaint answered %v while writes were going on", err)
+				}
+			})
 		case 5: // a second root-parent edge: the instance root id changes under concurrent readers
 			if rootEdgeDone || !fenceOpen("c20-root-edge") {
 				continue
@@ -422,6 +429,30 @@ func runC20(s *Sim) {
 	s.Probe(fmt.Sprintf("overlap-sites=%d", min(len(b.sites), 9)))
 	for site, n := range b.sites {
 		s.Stats.Probes["released at "+site] += n
+	}
+	// the load has stopped, every handler was released and nothing is delayed: every kind of request is answered now
+	// (handlers that wait for each other -- a lock cycle, an exhausted connection pool -- show up here at the latest)
+	s.DelayPM = 0
+	s.Call(func() {
+		clock += 1000
+		if _, err := client.GetNodes(setup, "root", root, "", true); err != nil {
+			s.Fail("C20", "unanswered-after-load", "after the load stopped a read of the root was not answered: %v", err)
+			return
+		}
+		if err := client.SendNodePoint(setup, "n1", data.Point{Type: "probe", Value: 1, Time: time.Unix(0, clock), Origin: "setup"}, true); err != nil {
+			s.Fail("C20", "unanswered-after-load", "after the load stopped a node-point write was not acknowledged: %v", err)
+			return
+		}
+		if err := client.SendEdgePoint(setup, "n1", root, data.Point{Type: "probe", Value: 1, Time: time.Unix(0, clock+1), Origin: "setup"}, true); err != nil {
+			s.Fail("C20", "unanswered-after-load", "after the load stopped an edge-point write was not acknowledged: %v", err)
+			return
+		}
+		if err := client.AdminStoreVerify(setup); err != nil {
+			s.Fail("C20", "unanswered-after-load", "after the load stopped admin.storeVerify was not answered: %v", err)
+		}
+	})
+	if s.Failed() {
+		return
 	}
 	// content is what some serial order of the acknowledged writes gives (last writer wins is order independent), hashes agree
 	tr.CheckState(true)
